@@ -237,6 +237,66 @@ class SymSeq:
     def clear(self):
         self.n = z3.IntVal(0)
 
+    def _as_seq(self, other):
+        if isinstance(other, SymSeq):
+            return other
+        if hasattr(other, "to_seq"):
+            return other.to_seq()
+        if isinstance(other, (list, tuple)):
+            items = list(other)
+            sh = self.elem_shape or (shape_of(items[0]) if items else None)
+            def at(j, items=items, sh=sh):
+                v = items[-1]
+                for q in range(len(items) - 2, -1, -1):
+                    v = sh.ite(lift(j) == q, items[q], v)
+                return v
+            return SymSeq(z3.IntVal(len(items)), at if items else (lambda j: None), sh, "literal")
+        raise Unsupported("concatenation of an abstract list with %s" % type(other).__name__)
+
+    def _concat(self, other):
+        o = self._as_seq(other)
+        sh = self.elem_shape or o.elem_shape
+        a_at, a_n, b_at = self._at, self.n, o._at
+        if sh is None:                                  # comprehension results carry no declared shape: infer it from a sample element
+            for at in (a_at, b_at):
+                try:
+                    with ctx().quantified(z3.BoolVal(True)):
+                        sample = at(z3.Int(ctx().name("sample")))
+                    if sample is not None:
+                        sh = shape_of(sample)
+                        break
+                except Unsupported:
+                    pass
+        if sh is None:
+            raise Unsupported("concatenation of abstract lists without element shape")
+        return a_n + o.n, (lambda j: sh.ite(lift(j) < a_n, a_at(j), b_at(lift(j) - a_n))), sh
+
+    def __add__(self, other):
+        n, at, sh = self._concat(other)
+        return SymSeq(n, at, sh, self.name + "+")
+
+    def snapshot(self, shape=None):
+        """a copy whose elements are fixed NOW (fresh uninterpreted element function, axiomatised equal to the current elements): needed
+        before an in-place update when the elements are computed lazily from state that the update changes"""
+        c = ctx()
+        sh = shape or self.elem_shape
+        j = z3.Int(c.name("snap"))
+        guard = z3.And(j >= 0, j < self.n)
+        with c.quantified(guard):
+            v = self._at(j)
+        if sh is None:
+            sh = shape_of(v)
+        fn = sh.fresh_fn(self.name + ".snap", [INT])
+        c.assume(z3.ForAll([j], z3.Implies(guard, sh.eq(fn(j), v))))
+        return SymSeq(self.n, fn, sh, self.name + ".snap")
+
+    def __iadd__(self, other):
+        o = self._as_seq(other)
+        if o.name != "literal":
+            o = o.snapshot(self.elem_shape)        # python evaluates the right-hand side before the in-place extension
+        self.n, self._at, self.elem_shape = self._concat(o)
+        return self
+
     def copy(self):
         return SymSeq(self.n, self._at, self.elem_shape, self.name)
 
